@@ -53,6 +53,12 @@ h = custom_target('hh', output: 'h.txt', command: [p, '-c', 'pass'], depends: g,
 k = custom_target('kk', output: 'k.txt', command: [p, '-c', 'pass', '@INPUT@'], input: g, depend_files: ['meson.build'], build_by_default: true)
 j = custom_target('jj', output: 'j.txt', command: [p, '-c', 'pass'], depends: [k, h, g], capture: true)
 run_target('rt', command: [p, '-c', 'pass'], depends: [h, g, k], env: {'Z': '1', 'Y': '2'})
+e4 = environment({'E2': 'b', 'E1': 'a', 'E3': 'c', 'E4': 'd'})
+e4.append('E5', 'x')
+e4.prepend('E0', 'y')
+m = custom_target('mm', output: 'm.txt', command: [p, '-c', 'pass'], capture: true, env: e4)
+n = custom_target('nn', output: 'n.txt', command: [p, '-c', 'pass'], feed: true, input: 'meson.build', env: {'N2': '1', 'N1': '2', 'N3': '3'})
+run_target('rt2', command: [p, '-c', 'pass'], env: e4)
 alias_target('al', h, g, k, j)
 test('t2', p, args: ['-c', 'pass', g, h], env: {'K2': 'v', 'K1': 'w', 'K3': 'x'}, suite: ['s2', 's1'], depends: [g, h, k, j])
 gen = generator(p, output: '@BASENAME@.out', arguments: ['-c', 'pass', '@INPUT@', '@OUTPUT@'])
